@@ -195,10 +195,14 @@ def part_rules(prog, chk, pid):
     found = None
     for b in branches:
         r = rel(b.d["cond"], True)
-        if r[0] == "rel" and r[1] == "Lt" and is_const(r[2]) and cval(r[2]) == mx and unsnap(r[3]).op == "len":
-            found = (b, unsnap(r[3]).args[0])
+        # `len(...) > T` closes a block as soon as it would exceed T bytes, `len(...) >= T` as soon as it would exceed T - 1: any bound of at most 117 keeps the property
+        # (the documented limit is a maximum; splitting earlier only produces more, smaller blocks)
+        if r[0] == "rel" and r[1] in ("Lt", "LtE") and is_const(r[2]) and isinstance(cval(r[2]), int) and unsnap(r[3]).op == "len":
+            bound = cval(r[2]) if r[1] == "Lt" else cval(r[2]) - 1
+            if 1 <= bound <= 117:
+                found = (b, unsnap(r[3]).args[0])
     ok = found is not None
-    why = "no split test `len(...) > MAX_TLVBLOCK_SIZE` (strictly greater) in the merge loop"
+    why = "no split test in the merge loop that closes a block before it would exceed 117 bytes"
     if ok:
         segs = w.flatten(found[1])
         names = [canon(s[1]) if s[0] == "opaque" else s[0] for s in segs]
@@ -536,4 +540,9 @@ def run(prog, chk, tier):
     stackrt.guarded(chk, "C10.tlv-scenarios", tlv_scenarios, prog, chk, "C10", tier)
     chk.shape_fallback("ordering", ["tlv-scenarios"], "dictionaries with unsorted insertion order and interleaved deletions included")
     chk.shape_fallback("framing", ["set-config-scenarios"])
+    # the split test and the emptiness analysis read conf_dict_to_tlv's own loop; when the merging is written differently (moved into a helper, block under construction kept in a
+    # local) the scenarios still decode every block of dictionaries whose sizes land on, below and above the limit, with deletions and oversize entries in every position
+    chk.shape_fallback("split-test", ["tlv-scenarios"])
+    chk.shape_fallback("no-empty-block", ["tlv-scenarios"])
+    chk.shape_fallback("tlv-parts", ["tlv-scenarios"])
     chk.assume("keys 0..0xFFFF, value ids 0..0xFE, contents up to 254 bytes as in the property's quantifier")
